@@ -171,12 +171,16 @@ class C16(Check):
         centres = np.column_stack([cra, cdec])
 
         with Scratch("c16") as tmp:
-            def create(tag, gen_obj, nw):
+            if case_bits(case, "patch-like-parent") % 3 == 0:
+                tmp = tmp / ["patch_6", "run_patch_16", "npatch_006"][case_bits(case, "parent-name") % 3] / "randoms"
+                tmp.mkdir(parents=True)
+
+            def create(tag, gen_obj, nw, mode=None):
                 from yaw import AngularCoordinates, Catalog
 
                 os.environ["YAW_NUM_THREADS"] = str(nw)
                 kw = dict(chunksize=chunk, max_workers=nw)
-                if case["mode"] == "centres":
+                if (mode or case["mode"]) == "centres":
                     kw["patch_centers"] = AngularCoordinates(centres)
                 else:
                     kw.update(patch_num=2, probe_size=min(n, 150))
@@ -246,6 +250,25 @@ class C16(Check):
             counters["reproducibility_pairs"] += 1
             if fresh["all"] != first["all"]:
                 bad("reproducibility:fresh-generator-same-seed-differs", {})
+            # a generator given its seed after construction (reseed) is the generator constructed with that seed
+            late = BoxRandoms(ra0, ra1, dec0, dec1, weights=w, redshifts=z, seed=seed + 17)
+            late.reseed(seed)
+            if int(rng.integers(2)):
+                late(5)
+            reseeded = create("r", late, 1)
+            counters["reproducibility_pairs"] += 1
+            if reseeded["all"] != first["all"]:
+                bad("reproducibility:reseeded-generator-differs", dict(mode=case["mode"]))
+            if case["mode"] == "generate":
+                # the points are the generator's seeded stream whichever way the patches are defined
+                try:
+                    by_centres = create("m", BoxRandoms(ra0, ra1, dec0, dec1, weights=w, redshifts=z, seed=seed), 1, mode="centres")
+                    counters["reproducibility_pairs"] += 1
+                    if by_centres["all"] != first["all"]:
+                        bad("reproducibility:points-depend-on-patch-mode", dict(n=n, chunk=chunk))
+                except ValueError as e:
+                    if "no data assigned" not in str(e):
+                        raise
             other = create("d", BoxRandoms(ra0, ra1, dec0, dec1, weights=w, redshifts=z, seed=seed + 1), 1)
             if n >= 3 and other["all"] == first["all"]:
                 bad("reproducibility:seed-ignored", {})
